@@ -273,6 +273,7 @@ Inductive action :=
 | AConvAdd                        (* addConverter *)
 | AEnvUnc (n : N)                 (* environment: after the next closure n tags are uncertain *)
 | AEnvConvWork (b : bool)         (* environment: the converter scheduler will (not) find work *)
+| ABoot                           (* first closure of manager.New: start tagging / converter / merge jobs if needed *)
 | AStart (k : kind)
 | AComplete (k : kind).
 
@@ -422,6 +423,7 @@ Definition step (st : state) (a : action) : state :=
                  (next_id st) (next_uid st) (nunm st) (cwork st) (unc st) (cjob st)
                  (ijob st) (mjob st) (invalidate_tj hit (tjob st)) (views st)))
   | AConvSet => start_converter st
+  | ABoot => start_merge (start_converter (start_tagging st))
   | AConvRemove => st
   | AConvAdd => st
   | AEnvUnc n =>
@@ -552,7 +554,7 @@ Definition enabled (st : state) (a : action) : bool :=
   | ARead v | ARelease v => match view_of v (views st) with None => false | Some _ => true end
   | ATagAdd => true
   | ATagDel hit | ATagUpd hit => if hit then match tjob st with Some _ => true | None => false end else true
-  | AConvSet | AConvRemove | AConvAdd | AEnvUnc _ | AEnvConvWork _ => true
+  | AConvSet | AConvRemove | AConvAdd | AEnvUnc _ | AEnvConvWork _ | ABoot => true
   | AStart KImport => match ijob st with Some j => match ij_phase j with AtStart => true | _ => false end | None => false end
   | AStart KMerge => match mjob st with Some j => match mj_phase j with AtStart => true | _ => false end | None => false end
   | AStart KTag => match tjob st with Some j => match tj_phase j with AtStart => true | _ => false end | None => false end
